@@ -106,9 +106,8 @@ def _kind(ctx, kind, version):
             ctx.ob(rule, 'v%s: encoded %s ⊆ spec(%s)' % (version, kind, '|'.join(names)), True, where)
 
 
-def _shape(ctx):
+def _shape(ctx, rule='C06.D1'):
     m = ctx.model
-    rule = 'C06.D1'
     try:
         J.dumps_call(ctx, rule)
         to = m.func('jsondumper', '_dump_grid_to_json')
